@@ -7,7 +7,7 @@ Require Import GeosV.C01.ArrangementDefs GeosV.C01.OracleDefs.
 Require Extraction.
 Require Import ExtrOcamlBasic ExtrOcamlString.
 Extraction "xc01.ml" relate_oracle oracle_run relate_spec side_ok oracle_events dim_real env_of named_values
-  valid_geom in_scope fragile_nodes representable lines_of witnesses nodes all_segs loc_dim_h loc_dim_fast
+  valid_geom in_scope eps_ok side_paths side_clear ring_segs qdet cross_n on_seg_h fragile_nodes representable lines_of witnesses nodes all_segs loc_dim_h loc_dim_fast
   spec_disjoint spec_intersects spec_within spec_contains spec_covers spec_coveredBy spec_equals spec_touches spec_crosses
   spec_overlaps spec_containsProperly transpose pat_matches sym_of_code
   map_geom translate reflect_x reflect_y swap_xy.
